@@ -24,6 +24,7 @@ func init() {
 func runC28(c *Ctx) {
 	w := c.W
 	pkg := "z/tls"
+	c28Extras(c)
 	if w.Pkg(pkg) == nil {
 		c.Undecided("R-OWN", pkg, "package", "-", "not loaded")
 		return
